@@ -31,6 +31,7 @@ name: url_done
 define: U_DONE, U_REAL_STR, U_PLAIN
 src: url.c
 backend: sat
+native: self
 flags: --memory-leak-check
 funcs: spif_url_done, spif_str_del, spif_str_done
 */
@@ -39,6 +40,7 @@ name: url_del
 define: U_DEL, U_REAL_STR, U_PLAIN
 src: url.c
 backend: sat
+native: self
 flags: --memory-leak-check
 funcs: spif_url_del, spif_url_done, spif_str_del, spif_str_done
 */
@@ -89,6 +91,13 @@ objbits: 9
  * the buffer of an empty-state str is not.  Including the whole real str.c under DFCC ran out of memory. */
 # define VERIF_NO_ASSUMED_STR_CONTRACTS
 # include "url.h"
+# ifdef VERIF_NATIVE             /* native replay: the linked str.c keeps its own names */
+#  define spif_str_done vg_m_str_done
+#  define spif_str_del vg_m_str_del
+#  ifndef VCAP
+#   define VCAP 0x3fffffffL
+#  endif
+# endif
 spif_bool_t spif_str_done(spif_str_t self)
 {
     ASSERT_RVAL(!SPIF_STR_ISNULL(self), FALSE);
@@ -110,7 +119,11 @@ spif_bool_t spif_str_del(spif_str_t self)
 #else
 # include "url.h"
 #endif
-#include "src/url.c"
+#if defined(U_PLAIN) && defined(VERIF_NATIVE)
+# include "rawsrc/url.c"
+#else
+# include "src/url.c"
+#endif
 #ifndef U_PLAIN
 #define NET_URL_API
 #include "url.h"
@@ -123,30 +136,36 @@ spif_bool_t spif_str_del(spif_str_t self)
  * calls the function and checks: reusable empty state / object gone; every block the object owned is
  * released exactly once (cbmc's double-free and use-after-free checks, --memory-leak-check with nothing
  * else live except a bystander block that must survive). */
-static spif_str_t mk_comp(void)
+static spif_str_t mk_comp(_Bool has, long len, long size)
 {
-    if (nondet_bool()) return NULL;
-    spif_str_t p = malloc(sizeof(spif_const_str_t));
-    p->len = nondet_long(); p->size = nondet_long();
+    spif_str_t p;
+    if (!has) return NULL;
+    p = malloc(sizeof(spif_const_str_t));
+    p->len = len; p->size = size;
     __CPROVER_assume(p->len >= 0 && p->len < p->size && p->size <= VCAP);
+#ifdef VERIF_NATIVE              /* the witness' sizes may be huge: same shape, short buffers */
+    if (p->size > 64) { p->len = p->len % 30; p->size = p->len + 1 + p->size % 5; }
+#endif
     p->s = malloc(p->size);
     return p;
 }
+#define ANY_COMP(n) mk_comp(VND(bool, has_ ## n), VND(long, len_ ## n), VND(long, size_ ## n))
 void harness(void)
 {
-    libast_debug_level = nondet_uint();          /* every run-time debug level */
+    libast_debug_level = VND(uint, debug_level);          /* every run-time debug level */
     char *bystander = malloc(1);
     spif_url_t u = malloc(sizeof(spif_const_url_t));
+#ifndef VERIF_NATIVE
     SPIF_CLASS_VAR(url) = &u_class;
+#endif
     NSTR(u)->parent.cls = SPIF_CLASS_VAR(url);
-    if (nondet_bool()) { NSTR(u)->s = NULL; NSTR(u)->len = 0; NSTR(u)->size = 0; }
+    if (VND(bool, text_empty)) { NSTR(u)->s = NULL; NSTR(u)->len = 0; NSTR(u)->size = 0; }
     else {
-        NSTR(u)->len = nondet_long(); NSTR(u)->size = nondet_long();
-        __CPROVER_assume(NSTR(u)->len >= 0 && NSTR(u)->len < NSTR(u)->size && NSTR(u)->size <= VCAP);
-        NSTR(u)->s = malloc(NSTR(u)->size);
+        spif_str_t t = mk_comp(1, VND(long, len_text), VND(long, size_text));
+        NSTR(u)->s = t->s; NSTR(u)->len = t->len; NSTR(u)->size = t->size; free(t);
     }
-    u->proto = mk_comp(); u->user = mk_comp(); u->passwd = mk_comp(); u->host = mk_comp();
-    u->port = mk_comp(); u->path = mk_comp(); u->query = mk_comp();
+    u->proto = ANY_COMP(proto); u->user = ANY_COMP(user); u->passwd = ANY_COMP(passwd); u->host = ANY_COMP(host);
+    u->port = ANY_COMP(port); u->path = ANY_COMP(path); u->query = ANY_COMP(query);
 # ifdef U_DONE
     spif_bool_t r = spif_url_done(u);
     __CPROVER_assert(r == TRUE, "done returns TRUE");
